@@ -158,9 +158,203 @@ def run(ctx):
     rule3_shrink(ctx, w)
     rule4_strings(ctx, w)
     rule5_growth(ctx)
+    rule6_grouping(ctx, w)
+    rule7_replay(ctx)
+
+
+# life cycle of a node in the chronological replay: the event of kind K, once dequeued, schedules exactly the next one
+NEXT = {'ready': ('start', ['dr_dag_node_info.start', 'dr_clock_pos.t']),
+        'start': ('last_start', ['dr_dag_node_info.last_start_t']),
+        'last_start': ('end', ['dr_dag_node_info.end', 'dr_clock_pos.t'])}
+
+
+def rule7_replay(ctx):
+    ctx.doc('C19.7', 'chronological replay (dr_pi_dag_chronological_traverse): ready counts start at zero and are incremented once per '
+            'edge target; a dequeued event of kind ready/start/last_start enqueues exactly one event of the next kind for the same node '
+            'at that node\'s start / last-start / end time; an end event walks the node\'s edge range, decrements the target\'s count '
+            'and enqueues its ready event exactly when the count reaches zero; every dequeued event is handed to the traverser')
+    m = ctx.ssa('chronological.c', area='profiler')
+    en = ctx.enumerators('chronological.c', area='profiler')
+    K = {k: ctx.need_enum(en, 'dr_event_kind_' + k) for k in ('ready', 'start', 'last_start', 'end')}
+    f = ctx.need_fn(m, 'dr_pi_dag_chronological_traverse')
+    deq = call_sites(f, 'dr_event_queue_deq')
+    sws = [i for i in f.order if i.op == 'switch']
+    ctx.ob('C19.7', 'one dequeue and one dispatch per iteration', len(deq) == 1 and len(sws) == 1 and lib.loop_containing(f, deq[0]) is not None,
+           'while (F->n) { ev = deq(F); switch (ev.kind) ... }', loc=f.loc)
+    if len(deq) != 1 or len(sws) != 1:
+        return
+    sw = sws[0]
+    cases = {}
+    for v, t in sw.d['cases']:
+        cases.setdefault(v, t)
+    ctx.ob('C19.7', 'all four event kinds dispatched', set(cases) == set(K.values()), 'ready, start, last_start, end', loc=sw.loc,
+           detail=str(sorted(cases)))
+    mks = call_sites(f, 'dr_mk_event')
+    enq = call_sites(f, 'dr_event_queue_enq')
+    # the node of the dequeued event: every non-constant node argument of the K -> next(K) events must be this one value
+    for kname, (nxt, tpath) in sorted(NEXT.items()):
+        kv = K[kname]
+        if kv not in cases:
+            continue
+        mine = [c for c in mks if f.edge_dominates(sw.block.id, cases[kv], c)]
+        ok1 = len(mine) == 1
+        ctx.ob('C19.7', '%s event schedules exactly one follow-up' % kname, ok1, 'one dr_mk_event in the case', loc=sw.loc)
+        if not ok1:
+            continue
+        c = mine[0]
+        ctx.ob('C19.7', '%s -> %s' % (kname, nxt), const_int(c.args[2]) == K[nxt], 'the follow-up is the next stage of the same node', loc=c.loc,
+               detail='kind %s' % const_int(c.args[2]))
+        tl = [f.insts[k] for k in f.sources(c.args[1]) if k in f.insts]
+        okt = len(tl) == 1 and tl[0].op == 'load' and f.ap(tl[0].ops[0]).fields[-len(tpath):] == tpath and \
+            lib.same_expr(f, f.ap(tl[0].ops[0]).root, c.args[3])
+        ctx.ob('C19.7', '%s is scheduled at the node\'s own %s time' % (nxt, nxt), okt, 'time stamp taken from the same node u', loc=c.loc,
+               detail=expr_str(f, c.args[1]))
+        ul = [f.insts[k] for k in f.sources(c.args[3]) if k in f.insts]
+        oku = len(ul) == 1 and ul[0].op == 'load' and f.field(ul[0]) == 'dr_event.u'
+        ctx.ob('C19.7', '%s follow-up is for the dequeued node' % kname, oku, 'u = ev.u', loc=c.loc)
+        q = [e for e in enq if e.block.id == c.block.id and f.dominates_f(c, e) and same_value(f, e.args[1], c.args[0])]
+        ctx.ob('C19.7', '%s follow-up is enqueued' % kname, len(q) == 1, 'dr_event_queue_enq(F, that event)', loc=c.loc)
+    # ready counts
+    rc = [c for c in f.calls() if c.callee == 'dr_malloc' and c.id != getattr(call_sites(f, 'dr_mk_event_queue')[0] if call_sites(f, 'dr_mk_event_queue') else None, 'id', None)]
+    ctx.ob('C19.7', 'ready counts allocated', len(rc) == 1, 'int ready_count[G->n]', loc=f.loc)
+    if len(rc) == 1:
+        R = rc[0].id
+        sts = [st for st in f.order if st.op == 'store' and f.strip(f.ap(st.ops[1]).root) == R]
+
+        def delta(st):
+            av = affine(f, st.ops[0])
+            own = [k for k in av if k in f.insts and f.insts[k].op == 'load' and lib.same_addr(f, f.insts[k].ops[0], st.ops[1])]
+            if len(own) == 1 and av[own[0]] == 1 and len([k for k in av if k != '' and av[k] != 0]) == 1:
+                return av.get('', 0)
+            return None
+        zero = [st for st in sts if const_int(st.ops[0]) == 0]
+        inc = [st for st in sts if delta(st) == 1]
+        dec = [st for st in sts if delta(st) == -1]
+        ctx.ob('C19.7', 'ready counts: zeroed, +1 per edge, -1 per finished predecessor', len(zero) == 1 and len(inc) == 1 and len(dec) == 1 and
+               len(sts) == 3, 'exactly these three writers', loc=f.loc, detail='%d stores' % len(sts))
+
+        def idx_is_edge_target(st):
+            ix = [x for x in f.ap(st.ops[1]).steps if x[0] in ('p', 'i')]
+            if not ix or not isinstance(ix[0][1], str):
+                return False
+            l = [f.insts[k] for k in f.sources(ix[0][1]) if k in f.insts]
+            return len(l) == 1 and l[0].op == 'load' and f.field(l[0]) == EG + 'v'
+        for st in inc + dec:
+            ctx.ob('C19.7', 'ready count indexed by the edge target', idx_is_edge_target(st), 'ready_count[e->v]', loc=st.loc)
+        if len(zero) == 1 and len(inc) == 1:
+            r_z, r_i, r_d = f.reachable_from(zero[0]), f.reachable_from(inc[0]), f.reachable_from(deq[0])
+            ctx.ob('C19.7', 'counts are complete before the replay starts', inc[0] in r_z and zero[0] not in r_i and deq[0] in r_i and
+                   inc[0] not in r_d and zero[0] not in r_d,
+                   'zero loop, then one increment per edge, then the event loop', loc=inc[0].loc)
+        if len(dec) == 1 and K['end'] in cases:
+            d = dec[0]
+            ctx.ob('C19.7', 'decrement belongs to the end event', f.edge_dominates(sw.block.id, cases[K['end']], d), 'case end', loc=d.loc)
+            rdy = [c for c in mks if f.edge_dominates(sw.block.id, cases[K['end']], c)]
+            ok1 = len(rdy) == 1 and const_int(rdy[0].args[2]) == K['ready']
+            ctx.ob('C19.7', 'end event makes successors ready', ok1, 'one ready event per successor whose count reaches zero', loc=d.loc)
+            if ok1:
+                c = rdy[0]
+                # guard: ready_count[e->v] == 0, read after the decrement
+                g = False
+                for ic in f.order:
+                    if ic.op == 'icmp' and ic.pred in ('eq', 'ne') and const_int(ic.ops[1]) == 0:
+                        l = f.get(f.strip(ic.ops[0])) if isinstance(ic.ops[0], str) else None
+                        fresh = l is not None and l.op == 'load' and lib.same_addr(f, l.ops[0], d.ops[1]) and f.dominates_f(d, l)
+                        viaval = not lib.affine_diff(f, ic.ops[0], d.ops[0])
+                        if fresh or viaval:
+                            for br in f.users(ic.id):
+                                if br.op == 'br' and 'cond' in br.d and f.edge_dominates(br.block.id, br.d['t'] if ic.pred == 'eq' else br.d['f'], c):
+                                    g = True
+                ctx.ob('C19.7', 'ready exactly when the count reaches zero', g, 'if (ready_count[e->v] == 0) after the decrement', loc=c.loc)
+                vl = f.get(f.strip(c.args[3])) if isinstance(c.args[3], str) else None
+                okv = vl is not None and vl.op == 'getelementptr' and is_load_of(f, vl.d['base'], PI + 'T') and \
+                    any(k in f.insts and f.insts[k].op == 'load' and f.field(f.insts[k]) == EG + 'v' for k in f.sources(vl.d['path'][0].get('p')))
+                ctx.ob('C19.7', 'the node made ready is the edge target', okv, 'v = G->T + e->v', loc=c.loc)
+                q = [e for e in enq if f.dominates_f(c, e) and same_value(f, e.args[1], c.args[0]) and e.block.id == c.block.id]
+                ctx.ob('C19.7', 'ready event is enqueued', len(q) == 1, 'enq', loc=c.loc)
+            # the edge range walked is [E + u->edges_begin, E + u->edges_end)
+            eb = [l for l in f.loads_of(PN + 'edges_begin') if f.edge_dominates(sw.block.id, cases[K['end']], l)]
+            ee = [l for l in f.loads_of(PN + 'edges_end') if f.edge_dominates(sw.block.id, cases[K['end']], l)]
+            ctx.ob('C19.7', 'end event walks the node\'s own edge range', len(eb) == 1 and len(ee) == 1 and
+                   lib.same_expr(f, f.ap(eb[0].ops[0]).root, f.ap(ee[0].ops[0]).root), 'edges_begin .. edges_end of u', loc=d.loc)
+    ind = [c for c in f.calls() if 'callee_ref' in c.d]
+    ctx.ob('C19.7', 'every dequeued event reaches the traverser', len(ind) == 1 and f.always_passes(deq[0], ind, to=deq),
+           'ct->process_event(ct, ev) on every path round the loop', loc=deq[0].loc)
+    init = [c for c in mks if not lib.loop_containing(f, c)]
+    ctx.ob('C19.7', 'replay starts with the first leaf ready', len(init) == 1 and const_int(init[0].args[2]) == K['ready'] and
+           any(k in f.insts and f.insts[k].op == 'call' and f.insts[k].callee == 'dr_pi_dag_first_leaf' for k in f.sources(init[0].args[3])),
+           'ready(first leaf) is the only initial event', loc=f.loc)
+    ctx.floor('C19.7', 28)
 
 
 PN = 'dr_pi_dag_node.'
+EG = 'dr_pi_dag_edge.'
+
+
+def rule6_grouping(ctx, w):
+    ctx.doc('C19.6', 'edges grouped by source: dr_pi_dag_sort_edges sorts all m edges of G->E with a comparator that is lexicographic '
+            'in (u, v) on all 9 ordering cases; dr_pi_dag_set_edge_ptrs groups by the same key u, sets edges_begin of node 0 to 0, '
+            'edges_end of node n-1 to m, and always writes edges_end(i) and edges_begin(i+1) as a pair with the same value')
+    so = ctx.need_fn(w, 'dr_pi_dag_sort_edges')
+    qs = call_sites(so, 'qsort')
+    ctx.ob('C19.6', 'edges sorted with qsort', len(qs) == 1, 'one sort of the edge array', loc=so.loc)
+    cmpname = None
+    for q in qs:
+        esz = (w.structs.get('dr_pi_dag_edge') or {}).get('size')
+        okq = is_load_of(so, q.args[0], PI + 'E') and is_load_of(so, q.args[1], PI + 'm') and const_int(q.args[2]) == esz and esz
+        ctx.ob('C19.6', 'qsort covers all m edges with the edge size', bool(okq), 'qsort(G->E, G->m, sizeof(dr_pi_dag_edge), cmp)', loc=q.loc,
+               detail='element size %s, struct size %s' % (const_int(q.args[2]), esz))
+        if isinstance(q.args[3], dict) and 'fn' in q.args[3]:
+            cmpname = q.args[3]['fn']
+    ctx.ob('C19.6', 'comparator resolved', cmpname is not None, 'a named comparison function', loc=so.loc)
+    if cmpname:
+        c = ctx.need_fn(w, cmpname)
+        ctx.ob('C19.6', 'comparator is loop-free', not c.loops, 'finite ordering-case evaluation applies', loc=c.loc)
+        for du in (-1, 0, 1):
+            for dv in (-1, 0, 1):
+                got = lib.eval_cmp_fn(c, {('a0', EG + 'u'): 10 + du, ('a1', EG + 'u'): 10, ('a0', EG + 'v'): 20 + dv, ('a1', EG + 'v'): 20})
+                want = du if du else dv
+                sg = None if got is None else (0 if got == 0 else (1 if got > 0 and got < (1 << 31) else -1))
+                ctx.ob('C19.6', 'comparator case u%+d v%+d' % (du, dv), sg == want,
+                       'primary key is the source node u (edges of one node become contiguous), ties by target v', loc=c.loc,
+                       detail='returned %s, expected sign %s' % (got, want))
+    f = ctx.need_fn(w, 'dr_pi_dag_set_edge_ptrs')
+    ul = f.loads_of(EG + 'u')
+    oku = len(ul) == 1 and is_load_of(f, f.ap(ul[0].ops[0]).root, PI + 'E')
+    ctx.ob('C19.6', 'ranges are cut where the source node changes', oku, 'the grouping key is E[j].u, the primary sort key', loc=f.loc)
+    ends = f.stores_to(PN + 'edges_end')
+    begins = f.stores_to(PN + 'edges_begin')
+
+    def node_index(st):
+        ix = [x for x in f.ap(st.ops[1]).steps if x[0] in ('p', 'i')]
+        v = ix[0][1] if ix else 0
+        return {'c': v, 'w': 64} if isinstance(v, int) else v
+    m_ok = lambda v: is_load_of(f, v, PI + 'm')
+    first = [b for b in begins if const_int(b.ops[0]) == 0 and const_int(node_index(b)) == 0]
+    ctx.ob('C19.6', 'node 0 starts at edge 0', len(first) == 1 and all(f.dominates_f(first[0], x) for x in ends + begins if x is not first[0]),
+           'T[0].edges_begin = 0 before anything else', loc=f.loc)
+    paired = 0
+    for e in ends:
+        comp = [b for b in begins if b.block.id == e.block.id and lib.same_expr(f, b.ops[0], e.ops[0]) and
+                lib.affine_diff(f, node_index(b), node_index(e)) == {'': 1}]
+        last = m_ok(e.ops[0]) and not comp
+        if last:
+            d = lib.affine_diff(f, node_index(e), {'c': 0, 'w': 64})
+            nl = lib.load_terms(f, d, PI + 'n')
+            okl = len(nl) == 1 and d[nl[0]] == 1 and d.get('', 0) == -1 and len(d) == 2 and f.always_passes(f.entry_inst(), [e])
+            ctx.ob('C19.6', 'node n-1 ends at edge m', okl, 'T[n - 1].edges_end = m on every path', loc=e.loc)
+        else:
+            paired += 1
+            ctx.ob('C19.6', 'edges_end(i) paired with edges_begin(i+1)', len(comp) == 1,
+                   'adjacent ranges tile the edge array: where node i ends, node i+1 begins', loc=e.loc)
+    ctx.ob('C19.6', 'range boundaries written in the scan and in the tail', paired >= 2 and len(begins) == paired + 1, 'two pairing sites',
+           loc=f.loc, detail='%d paired, %d begin stores' % (paired, len(begins)))
+    for e in ends:
+        v = e.ops[0]
+        okv = m_ok(v) or (isinstance(v, str) and f.get(f.strip(v)) is not None and f.get(f.strip(v)).op == 'phi' and
+                          any(l['header'] == f.get(f.strip(v)).block.id for l in f.loops))
+        ctx.ob('C19.6', 'boundary value is the scan position or m', okv, 'j (current edge index) or m', loc=e.loc)
+    ctx.floor('C19.6', 19)
 
 
 def nonempty_range_guards(f, node_root):
@@ -383,6 +577,26 @@ MUTANTS = [
      'edits': [('src/profiler/chronological.c', "memcpy(evts, q->events, sizeof(dr_event) * q->sz);", "memcpy(evts, q->events, sizeof(dr_event *) * q->sz);")]},
     {'name': 'enq ensures capacity n only', 'expect': 'C19.5',
      'edits': [('src/profiler/chronological.c', "dr_event_queue_ensure(q, q->n + 1);", "dr_event_queue_ensure(q, q->n);")]},
+    {'name': 'edges sorted by target first', 'expect': 'C19.6',
+     'edits': [(DUMP, "  if (e->u < f->u) return -1;\n  if (e->u > f->u) return 1;\n  if (e->v < f->v) return -1;\n  if (e->v > f->v) return 1;",
+                "  if (e->v < f->v) return -1;\n  if (e->v > f->v) return 1;\n  if (e->u < f->u) return -1;\n  if (e->u > f->u) return 1;")]},
+    {'name': 'sort leaves the last edge out', 'expect': 'C19.6',
+     'edits': [(DUMP, "  qsort((void *)E, m, sizeof(dr_pi_dag_edge), edge_cmp);", "  qsort((void *)E, m - 1, sizeof(dr_pi_dag_edge), edge_cmp);")]},
+    {'name': 'edge ranges cut on the target node', 'expect': 'C19.6',
+     'edits': [(DUMP, "    long u = E[j].u;\n    while (i < u) {", "    long u = E[j].v;\n    while (i < u) {")]},
+    {'name': 'tail loop forgets edges_begin of the next node', 'expect': 'C19.6',
+     'edits': [(DUMP, "    T[i].edges_end = m;\n    T[i+1].edges_begin = m;", "    T[i].edges_end = m;")]},
+    {'name': 'replay: start event schedules the end directly', 'expect': 'C19.7',
+     'edits': [('src/profiler/chronological.c', "      dr_event_queue_enq(F, dr_mk_event(u->info.last_start_t, \n\t\t\t\t\tdr_event_kind_last_start, u, ",
+                "      dr_event_queue_enq(F, dr_mk_event(u->info.last_start_t, \n\t\t\t\t\tdr_event_kind_end, u, ")]},
+    {'name': 'replay: successor made ready before its count is decremented', 'expect': 'C19.7',
+     'edits': [('src/profiler/chronological.c', "\tready_count[e->v]--;\n\tif (ready_count[e->v] == 0) {", "\tif (ready_count[e->v] == 1) {")]},
+    {'name': 'replay: ready when the count is still one', 'expect': 'C19.7',
+     'edits': [('src/profiler/chronological.c', "\tif (ready_count[e->v] == 0) {", "\tif (ready_count[e->v] <= 1) {")]},
+    {'name': 'replay: end events are not reported to the traverser', 'expect': 'C19.7',
+     'edits': [('src/profiler/chronological.c', "\t}\n      }\n      break;\n    }\n    default:", "\t}\n      }\n      continue;\n    }\n    default:")]},
+    {'name': 'replay: ready counts indexed by the source node', 'expect': 'C19.7',
+     'edits': [('src/profiler/chronological.c', "    ready_count[G->E[i].v]++;", "    ready_count[G->E[i].u]++;")]},
     {'name': 'edge pointers set before sorting', 'expect': 'C19.2',
      'edits': [(DUMP, "  dr_pi_dag_enum_edges(G_);\t   /* G_->E */\n  dr_pi_dag_sort_edges(G_);\n  dr_pi_dag_set_edge_ptrs(G_);", "  dr_pi_dag_enum_edges(G_);\t   /* G_->E */\n  dr_pi_dag_set_edge_ptrs(G_);\n  dr_pi_dag_sort_edges(G_);")]},
 ]
